@@ -60,6 +60,15 @@ AccDiff(ra, ma) ==
 \* reportable stack trace and the one-line source (types change: not compared)
 RAccDiff(ra, rb) == {f \in AccFields \cup {"keys", "os", "frames", "source"} : ra[f] # rb[f]}
 
+\* GetOneLineSource reports the innermost frame of the innermost stack of the chain
+\* (relation between two recorded observations: the one-line source and the top
+\* frame of every layer's own reportable stack)
+SourceOK(ra) ==
+  LET tops == ra.chainTops
+      idx == {i \in 1..Len(tops) : tops[i] # ""}
+  IN IF idx = {} THEN ra.source = ""
+     ELSE ra.source = tops[CHOOSE i \in idx : \A j \in idx : j <= i]
+
 \* ---- outputs declared PII-free; redactable renderings (C03, C06, C12)
 \* marker stream: 1 = open, 2 = close, 3 = newline.  Balanced, never nested,
 \* balanced within every line.
@@ -131,7 +140,8 @@ ReportRep(ev, v) ==
   LET r == ev.obs.rep
       ns == Cardinality(StackLayers(v, reg))
       want == [hasSource |-> HasSource(v, reg), srcPrefix |-> TRUE, headOK |-> TRUE, ncomp |-> Len(VisNodes(v)),
-               nexc |-> IF ns = 0 THEN 1 ELSE ns, synthetic |-> ns = 0, excFrames |-> TRUE, excModule |-> TRUE,
+               nexc |-> IF ns = 0 THEN 1 ELSE ns, synthetic |-> ns = 0, excFrames |-> TRUE, excOwn |-> TRUE,
+               excModule |-> TRUE,
                nstack |-> ns, types |-> TypeLines(v, reg), nilNothing |-> TRUE]
       bad == {k \in DOMAIN want : r[k] # want[k]}
   IN Chk(bad = {}, ev, "report", "verdict", PropsFor({"C15"}, v), [k \in bad |-> want[k]], [k \in bad |-> r[k]])
@@ -189,6 +199,7 @@ ReportBuild(ev, new, tn) ==
      /\ IF tn.h \/ tn.dv THEN TRUE
         ELSE LET d == AccDiff(o.acc, Acc(v)) IN
              Chk(d = {}, ev, "acc", "verdict", PropsFor({"C19"}, v), [f \in d |-> Acc(v)[f]], [f \in d |-> o.acc[f]])
+     /\ Chk(SourceOK(o.acc), ev, "source", "verdict", {"C16"}, o.acc.chainTops, o.acc.source)
      /\ IF tn.h \/ tn.dv THEN TRUE
         ELSE LET spec == IsSpecVec(v, new, reg) IN
              Chk(o.is = spec, ev, "is", "verdict", PropsFor({"C08"}, v), spec, o.is)
